@@ -1,0 +1,46 @@
+//go:build verif
+
+/*
+AnyType Library for Go
+Verification hooks (compiled only with the "verif" build tag)
+*/
+
+package anytype
+
+import "reflect"
+
+/*
+VerifStepHook, if set, is called by both parser state machines once per consumed character,
+before the character is handled (machine: 0 = list, 1 = object).
+*/
+var VerifStepHook func(machine int, state uint8, char rune, remaining int, line int)
+
+/*
+VerifGateHook, if set, is called by the worker goroutines of the asynchronous methods
+before they call the user function (ForEachAsync) or acquire the result mutex (MapAsync).
+*/
+var VerifGateHook func(site string, id any)
+
+func verifStep(machine int, state parserState, char rune, remaining int, line int) {
+	if VerifStepHook != nil {
+		VerifStepHook(machine, uint8(state), char, remaining, line)
+	}
+}
+
+func verifGate(site string, id any) {
+	if VerifGateHook != nil {
+		VerifGateHook(site, id)
+	}
+}
+
+/*
+VerifSpine reports length, capacity and backing array address of the slice under a list
+(-1, -1, 0 if the value is not the built-in implementation).
+*/
+func VerifSpine(l List) (int, int, uintptr) {
+	impl, ok := l.(*list)
+	if !ok {
+		return -1, -1, 0
+	}
+	return len(impl.val), cap(impl.val), reflect.ValueOf(impl.val).Pointer()
+}
